@@ -33,6 +33,25 @@ for pid, what in BOUNDED.items():
     CLAIMED[pid] = ("exploration", BOUNDED_TEXT + " Space: " + what + ".", "3 and 5 " + pid,
                     "the oracle in rtc/ is a transcription of the property statement; packaging (installed release) trusted where it is the reference; recorded findings in known_findings.json",
                     "bounded stand-in: run-time contracts on the real functions (rtc)")
+PROOF = {
+ "C08": ("Symbolic execution of the real _evaluate_python on every (python tag, abi tag) pair of the property's finite tag universe x 5 implementation settings with requires_python an arbitrary set: 'compatible iff some admitted version loads the wheel' and the score triple are discharged for all requires_python at once; the bounded part runs the same contract on the real parser (exhaustive over the universe in the thorough tier).",
+         "5 C08", "law.C05.empty-exact (from C01/C05); A-PARSE-SHAPE for the four tag-derived specifier texts (guarded by the bounded part); lower-case tags; free-threaded x abi3 outside the statement",
+         "contract-based deductive verification: real body executed symbolically per concrete tag pair, abstract requires_python, z3"),
+ "C09": ("Platform.compatible_tags is verified per (OS class, architecture) against the declarative membership rule and rank order of PEP 600/656/macOS for all integer versions (loop invariants sound/ordered/complete, no bound); _evaluate_platform's score contract likewise; the bounded part compares the real strings on the whole C09 grid with an independent oracle (exhaustive) and, in the thorough tier, the oracle with packaging.tags.",
+         "5 C09", "A-STRFMT (renderings injective on template+integers; checked exhaustively on the grid); floor/alias/format tables transcribed from the PEPs; fat* formats unclaimed",
+         "contract-based deductive verification: loop invariants over abstract tag terms, z3 with deterministic instantiation"),
+ "C13": ("Reflexivity, symmetry, transitivity of == and hash compatibility are discharged for every pair/triple of the nine atom-level classes (six specifier classes incl. both spellings of the universal set, AnyMarker, EmptyMarker, MarkerExpression) with symbolic fields, == and hash resolved through the modelled Python protocol on the real methods; interchangeability as equal denotation / read-set frame obligation. Compound markers are covered by the bounded part.",
+         "5 C13", "A-DATACLASS; hash of a tuple is a function of its items' hashes; compound markers and OrderedSet bounded only",
+         "contract-based deductive verification: finite class case split with symbolic fields, z3"),
+ "C16": ("(i) acceptance monotone in requires_python by two-copy symbolic execution of the real _evaluate_python over the tag universe; (ii) tag-set nestedness as a lemma over the proved C09 rules; (iii) compare() executed symbolically in both directions over all platform-shape pairs: reflexive, symmetric on INCOMPATIBLE, never HIGHER both ways, and LOWER_OR_EQUAL/HIGHER imply the hypothesis of (ii).",
+         "5 C16", "trusted bases of C08, C09 and C13; nestedness on the stated grid (same manylinux/musllinux major, macOS 10.x minors <= 16, non-fat formats)",
+         "contract-based deductive verification: relational (two-copy) symbolic execution + rule lemma, z3"),
+ "C19": ("Every (operator, operator) pair of GenericSpecifier.__and__/__or__, all eight operators of __invert__, __contains__ of Empty/Any and the constructor guard are executed symbolically over SMT strings: for all literals and all candidate strings the result either raises NotImplementedError or is satisfied exactly by the intersection/union/complement.",
+         "5 C19", "Python `in` on str = substring containment, str ordering = code-point lexicographic (SMT-LIB str.<)",
+         "contract-based deductive verification: VCs over SMT strings from the real AST, z3 (cvc5 fallback)"),
+}
+for pid, (text, ref, note, tech) in PROOF.items():
+    CLAIMED[pid] = ("proof", text, ref, note, tech)
 NA_REASON = "check not built yet in this session (work in progress; see DESIGN.md section 5)"
 ALL = ["C%02d" % i for i in range(1, 20)]
 m = {"version": 1, "setup_cmd": "python3-vt check.py --setup",
